@@ -74,6 +74,27 @@ func convCompFuncV1ToV2(cf *ugo.CompiledFunction, opWidth []int) error {
 		return nil
 	}
 
+	// Position operands get wider, so every instruction behind one of them
+	// moves; map the start of each instruction (and the end of the function)
+	// to its new position to relocate jump and try targets.
+	newPos := make(map[int]int)
+	for i, n := 0, 0; ; {
+		newPos[i] = n
+		if i >= len(cf.Instructions) {
+			break
+		}
+		op := cf.Instructions[i]
+		w := opWidth[op]
+		switch op {
+		case opv1.OpJump, opv1.OpJumpFalsy, opv1.OpAndJump, opv1.OpOrJump:
+			n += 2
+		case opv1.OpSetupTry:
+			n += 4
+		}
+		i += 1 + w
+		n += 1 + w
+	}
+
 	var newInsts []byte
 	newSrcMap := make(map[int]int, len(cf.SourceMap))
 	operands := make([]int, 0, 4)
@@ -96,6 +117,13 @@ func convCompFuncV1ToV2(cf *ugo.CompiledFunction, opWidth []int) error {
 				cf.Instructions[i+1:],
 				operands[:0],
 			)
+			for j, pos := range operands {
+				// a target that is not the start of an instruction is kept
+				// as it is.
+				if np, ok := newPos[pos]; ok && pos > 0 {
+					operands[j] = np
+				}
+			}
 
 			var err error
 			instBuf, err = ugo.MakeInstruction(instBuf[:0], op, operands...)
